@@ -22,7 +22,7 @@ PROP = "C20"
 LEVEL = "exploration"
 
 YEARS = (2019, 2020, 2021, 2022)
-CONTENTS = ("-", "buy", "sell", "buy+sell", "move", "move0", "late-buy")
+CONTENTS = ("-", "buy", "sell", "buy+sell", "move", "move0", "late-buy", "donate+move", "donate+income")
 INCOME = {"AIRDROP", "HARDFORK", "INCOME", "INTEREST", "MINING", "STAKING", "WAGES"}
 
 
@@ -34,9 +34,15 @@ def content_rows(asset: str, year: int, content: str, n: int) -> List[Dict[str, 
     if content in ("sell", "buy+sell"):
         rows.append({"table": "out", "timestamp": f"{year}-06-{2 + n % 9:02d} 11:00:00+00:00", "exchange": "X2" if content == "sell" else "X1", "holder": "H1",
                      "transaction_type": "SELL", "spot_price": str(200 + year % 100), "crypto_out_no_fee": "1", "crypto_fee": "0.5", "unique_id": f"{asset}-{year}-sell"})
-    if content in ("move", "move0"):
+    if content in ("donate+move", "donate+income"):
+        rows.append({"table": "out", "timestamp": f"{year}-05-{2 + n % 9:02d} 11:00:00+00:00", "exchange": "X1", "holder": "H1", "transaction_type": "DONATE",
+                     "spot_price": str(300 + year % 100), "crypto_out_no_fee": "0.5", "crypto_fee": "0", "unique_id": f"{asset}-{year}-donate"})
+        if content == "donate+income":
+            rows.append({"table": "in", "timestamp": f"{year}-10-{4 + n % 9:02d} 10:00:00+00:00", "exchange": "X2", "holder": "H1", "transaction_type": "STAKING",
+                         "spot_price": str(130 + year % 100), "crypto_in": "0.5", "unique_id": f"{asset}-{year}-staking"})
+    if content in ("move", "move0", "donate+move"):
         rows.append({"table": "intra", "timestamp": f"{year}-09-{3 + n % 9:02d} 12:00:00+00:00", "from_exchange": "X1", "from_holder": "H1", "to_exchange": "X2",
-                     "to_holder": "H1", "spot_price": str(150 + year % 100), "crypto_sent": "1", "crypto_received": "0.75" if content == "move" else "1",
+                     "to_holder": "H1", "spot_price": str(150 + year % 100), "crypto_sent": "1", "crypto_received": "0.75" if content in ("move", "donate+move") else "1",
                      "unique_id": f"{asset}-{year}-move"})
     if content == "late-buy":
         # 21:30 on Dec 31 at -05:00 is already Jan 1 in UTC: the transaction belongs to ITS OWN (local) year
@@ -53,14 +59,18 @@ def holdings_ok(pattern: Sequence[str]) -> bool:
             bal += 4
         if c in ("sell", "buy+sell"):
             bal -= Fraction(3, 2)
-        if c == "move":
+        if c in ("donate+move", "donate+income"):
+            bal -= Fraction(1, 2)
+        if c in ("move", "donate+move"):
             bal -= Fraction(1, 4)
         if c == "late-buy":
             bal += 2
         if bal < 0:
             return False
-        if c in ("move", "move0") and bal < 1:
+        if c in ("move", "move0", "donate+move") and bal < 1:
             return False
+        if c == "donate+income":
+            bal += Fraction(1, 2)
     return True
 
 
@@ -132,6 +142,9 @@ def expected_rows(specs: Sequence[Dict[str, Any]], transfer_name: str) -> Dict[i
             amt, fee = Fraction(s["crypto_out_no_fee"]), Fraction(s.get("crypto_fee") or 0)
             row = {"month": ts.month, "day": ts.day, "client": s["exchange"], "type": s["transaction_type"].upper(), "buy": None, "buy_yen": None,
                    "sell": amt + fee, "sell_yen": amt * spot}
+            if row["type"] == "DONATE":
+                # a donation is not a sale: the yen column shows 0 and, in brackets, the donated value
+                row["sell_yen"] = f"0 (\uffe5{float(amt * spot):0,.2f})"
         else:
             fee = Fraction(s["crypto_sent"]) - Fraction(s["crypto_received"])
             if fee > 0:
@@ -221,6 +234,9 @@ def check(case: Dict[str, Any], res: Dict[str, Any]) -> Tuple[List[str], Dict[st
                 if w[key] is None:
                     if not O.is_blank(v):
                         problems.append(f"{tag}: {key} shows {v!r}, nothing expected")
+                elif isinstance(w[key], str):
+                    if v != w[key]:
+                        problems.append(f"{tag}: {key} {v!r} != {w[key]!r}")
                 elif not O.close(v, w[key]):
                     problems.append(f"{tag}: {key} {v!r} != {float(w[key])}")
         # opening balance chain
@@ -285,7 +301,7 @@ def judge(st: Stats, case: Dict[str, Any]) -> None:
     for k, v in counts.items():
         st.inc(k, v)
     years = [y for y, c in zip(YEARS, case["pattern"]) if c != "-"]
-    sparse = any(b - a > 1 for a, b in zip(years, years[1:])) or any(c in ("sell", "move") for c in case["pattern"])
+    sparse = any(b - a > 1 for a, b in zip(years, years[1:])) or any(c in ("sell", "move", "donate+move") for c in case["pattern"])
     if sparse or case["second"] is not None:
         st.inc("distinct_nontrivial")
     if problems:
@@ -344,7 +360,7 @@ def main(tier: str, budget_s: Optional[float] = None) -> int:
         "summary_lines_checked": total.get("summary_lines"),
         "rule": (
             "asset B1: every assignment year 2019..2022 -> {nothing, buy, sell, transfer with fee} that never over-spends, plus (quick) every 3-year / "
-            "(thorough) every 4-year assignment over the 7-item menu (buy+sell, fee-less transfer, a Dec 31 purchase at -05:00); x second asset "
+            "(thorough) every 4-year assignment over the 9-item menu (buy+sell, fee-less transfer, a Dec 31 purchase at -05:00, a donation followed by a fee-bearing transfer / by staking income); x second asset "
             "(none or one of 4 fixed patterns, rows in the opposite order) x row order (years first seen in / out of order) x language en / kl. One "
             "evaluation = one real tax_report_jp generation read back. non-trivial = sparse or disposal-only years, or two assets"
         ),
